@@ -111,6 +111,99 @@ func runC09(c *Check, rng *rand.Rand) {
 		}
 	}
 
+	// (a2) replies for two clients written by one node back to back (usually one read
+	// for the proxy): both are due
+	for k := 0; k < c.Pick(30, 400) && env.P.Alive(); k++ {
+		slot := rng.Intn(16384)
+		gate := NewGate()
+		var cls []*Client
+		var keys []string
+		n := 2 + rng.Intn(3)
+		for i := 0; i < n; i++ {
+			cl, err := env.Dial()
+			must(err, "dial")
+			key := Key(slot, newToken("tw"))
+			script.Plan(key).Gate = gate
+			cl.Send(Req("GET", key))
+			cls = append(cls, cl)
+			keys = append(keys, key)
+		}
+		must(env.Barrier(), "barrier")
+		gate.Open()
+		for _, key := range keys {
+			dl := time.Now().Add(3 * time.Second)
+			for time.Now().Before(dl) {
+				if pl := script.Lookup(key); pl != nil {
+					if seen := pl.SeenReqs(); len(seen) > 0 && seen[0].Replied() != 0 {
+						break
+					}
+				}
+				time.Sleep(200 * time.Microsecond)
+			}
+		}
+		must(env.Barrier(), "barrier")
+		countMissing := func() int {
+			m := 0
+			for _, cl := range cls {
+				if cl.NReplies() < 1 {
+					m++
+				}
+			}
+			return m
+		}
+		missing := countMissing()
+		if missing > 0 {
+			time.Sleep(time.Second)
+			must(env.Barrier(), "barrier")
+			missing = countMissing()
+		}
+		c.Eval(1)
+		c.Distinct(fmt.Sprintf("same-read/%d", n))
+		if missing > 0 {
+			c.Violate(Violation{Class: "completed-replies-withheld", Shape: "replies-for-several-clients-in-one-backend-read",
+				Detail:  fmt.Sprintf("one node answered %d clients back to back; %d of them hold no reply after the barrier", n, missing),
+				Witness: map[string]interface{}{"clients": n, "without_reply": missing}})
+		} else {
+			c.Count("due_replies_delivered", int64(n))
+		}
+		for _, cl := range cls {
+			cl.Close()
+		}
+		script.Forget(keys...)
+	}
+	// (a3) a split request whose last event is an error fragment: its error reply is due
+	ge := &pipeGen{env: env, script: script, rng: rng, gated: true, maxMultiKeys: 4, errFrag: 1}
+	for k := 0; k < c.Pick(12, 200) && env.P.Alive(); k++ {
+		r := ge.multi()
+		cl, err := env.Dial()
+		must(err, "dial")
+		cl.Send(r.Bytes)
+		must(env.Barrier(), "barrier")
+		for _, gt := range r.Gates {
+			gt.Open()
+			must(env.Barrier(), "barrier")
+		}
+		waitWritten(script, []*PReq{r}, 1)
+		must(env.Barrier(), "barrier")
+		if cl.NReplies() < 1 {
+			time.Sleep(time.Second)
+			must(env.Barrier(), "barrier")
+		}
+		c.Eval(1)
+		c.Distinct(fmt.Sprintf("error-fragment/%s/%d", r.Kind, len(r.Gates)))
+		if cl.NReplies() < 1 {
+			c.Violate(Violation{Class: "completed-replies-withheld", Shape: "split-request-completed-by-error-fragment",
+				Detail:  "every fragment of a split " + r.Kind + " was answered (one with an error) but the client holds no reply",
+				Witness: map[string]interface{}{"request": Q(r.Bytes)}})
+		} else {
+			c.Count("due_replies_delivered", 1)
+		}
+		cl.Close()
+		script.Forget(r.Keys...)
+	}
+	// a reader that stops and goes, twice on one connection
+	c02stopAndGo(c, env, script, c.Seed+9, "C09")
+
 	// (b) open loop
 	episodes := c.Pick(6, 60)
 	for ep := 0; ep < episodes; ep++ {
